@@ -22,15 +22,15 @@ theorem failed_tx_only_fee {n} (cfg : Cfg n) (fuel : Nat) (wInit w : World n) (t
         ((execTx cfg fuel wInit w tx).1.stepUsed : Int) * (execTx cfg fuel wInit w tx).1.stepPrice) :=
   ((settle_spec cfg w tx.frm _ (good_doExecute cfg fuel wInit w tx)).2.2.1 hf).1
 
-/-- pointwise reading of the same fact: storage untouched, other balances untouched -/
+/-- pointwise reading of the same fact: storage, object graphs and other balances untouched -/
 theorem failed_tx_pointwise {n} (cfg : Cfg n) (fuel : Nat) (wInit w : World n) (tx : Tx n)
     (hf : (execTx cfg fuel wInit w tx).1.status ≠ 0) :
     (∀ a k, (execTx cfg fuel wInit w tx).2.store a k = w.store a k) ∧
+    (∀ a, (execTx cfg fuel wInit w tx).2.graph a = w.graph a) ∧
     (∀ a, a ≠ tx.frm → (execTx cfg fuel wInit w tx).2.bal a = w.bal a) := by
   rw [failed_tx_only_fee cfg fuel wInit w tx hf]
-  constructor
-  · intro a k; rfl
-  · intro a ha; simp [World.setBal, updF, ha]
+  refine ⟨fun a k => rfl, fun a => rfl, ?_⟩
+  intro a ha; simp [World.setBal, updF, ha]
 
 /-- A failed transaction's receipt carries no event logs and no BTP messages. -/
 theorem failed_receipt_no_logs {n} (cfg : Cfg n) (fuel : Nat) (wInit w : World n) (tx : Tx n)
@@ -61,12 +61,14 @@ theorem failed_transfer_frame_rolls_back {n} (cfg : Cfg n) (w0 : World n) (frm t
 section Example
 def exCfg : Cfg 4 :=
   { price := 2, dflt := 10, input := 1, call := 3, invoke := 1000, legacyFee := false, legacyBal := false,
-    isContract := fun a => a.val = 2, hasContract := fun _ => false, treasury := 3 }
-def exW : World 4 := ⟨fun a => if a.val = 0 then 1000 else 0, fun _ _ => 0⟩
-def exTx : Tx 4 := ⟨0, 1, 50, 200, 5, .call [.setv 0 7, .emit 1, .call 1 5 0 [.setv 1 9, .emit 2] true, .fail 3]⟩
+    isContract := fun a => a.val = 1 || a.val = 2, hasContract := fun a => a.val = 1, treasury := 3 }
+def exW : World 4 := ⟨fun a => if a.val = 0 then 1000 else 0, fun _ _ => 0, fun _ => none⟩
+def exTx : Tx 4 := ⟨0, 1, 50, 200, 5, .call [.setv 0 7, .setg 2 9, .emit 1, .call 1 5 0 [.setv 1 9, .setg 3 1, .emit 2] true, .fail 3]⟩
 
 example : (execTx exCfg 3 exW exW exTx).1.status = 35 := by decide
 example : (execTx exCfg 3 exW exW exTx).1.status ≠ 0 := by decide
+/-- the program really writes the object graph before it fails (the frame without the final `fail` succeeds and changes it): -/
+example : ((scriptFrame exCfg 3 false 0 1 50 [.setg 2 9] exW 1000).w.graph 1) = some (2, 9) := by decide
 /-- the transfer really debits before it fails: -/
 example : (doTransfer exCfg exW 0 2 5).1 ≠ 0 ∧ (doTransfer exCfg exW 0 2 5).2.bal 0 = 995 := by decide
 end Example
